@@ -72,6 +72,11 @@ CHECKS = {
         text="20 kinds of failing construct are placed in the taken body of every nesting path of depth 0..2 (quick) / 0..3 (thorough) over 7 enclosing block forms, under all combinations of 0/1/2 preceding newlines at every level, with and without newlines inside tags, parsed with and without a path at start lines 0, 1 and 7, through both entry points; the generator knows the byte offset of the failing construct, so the returned SourceError is checked for line = start + preceding newlines, path, cause chain (sentinel filter error, os.IsNotExist, conversion error), message, parse-time vs render-time, and no output together with an error.",
         note="Placement inside included files is not enumerated (the statement does not say whose line is meant).",
         tech="exhaustive placement enumeration of failing constructs (kind x nesting path x layout x location) with a generator-known expected location"),
+    "C19": dict(
+        cat="exploration", ref="4/C19",
+        text="Every quadruple of distinct, mutually non-prefixing delimiter strings of length 1-2 over {< > [ ]} (quick, 8 templates) / {< > [ ] $ \\} (thorough, 2.1 M quadruples x 20 templates) is installed with Engine.Delims on a fresh engine, the template is re-spelled with it, and output / error line / error cause must equal those of the default spelling on a default engine; templates cover hyphens on objects, block, clause and end tags, raw and comment blocks, default-delimiter text that must become ordinary text, failing lines and unterminated blocks. Every subset of positions left empty must behave as the default for that position.",
+        note="Lengths 3-4 only through a pattern family (not exhaustive). Templates avoid the delimiter alphabet outside delimiters. Errors compared by line number and cause text.",
+        tech="exhaustive configuration enumeration (delimiter quadruples) x programs with a differential oracle against the default configuration"),
 }
 
 NOT_YET = "check not built yet (work in progress; see DESIGN.md section 7 build order)"
